@@ -41,7 +41,7 @@ def verify(a):
         rc0, out0 = sh(demo, cwd=wt, timeout=1800)
         print("demo on the unmodified tree: rc=%d" % rc0)
         print(out0[-600:])
-        rc, out = sh("git apply _agent/patch.diff", cwd=wt)
+        rc, out = sh("git apply _agent/patch.diff || (git apply --3way _agent/patch.diff && git reset -q)", cwd=wt)
         assert rc == 0, "patch does not apply: " + out
         rc1, out1 = sh(demo, cwd=wt, timeout=1800)
         print("demo with the change: rc=%d" % rc1)
@@ -77,7 +77,8 @@ def check(a):
     props = a.props.split(",") if a.props else [meta["property"]]
     rc, out = sh("git -C /repo status --porcelain --untracked-files=no")
     assert out.strip() == "", "/repo has uncommitted changes"
-    rc, out = sh("git -C /repo apply %s/patch.diff" % dst)
+    # (the patches were made before later commits to /repo, e.g. the probe hooks: fall back to a 3-way apply)
+    rc, out = sh("git -C /repo apply %s/patch.diff || (git -C /repo apply --3way %s/patch.diff && git -C /repo reset -q)" % (dst, dst))
     assert rc == 0, out
     results = {}
     try:
